@@ -77,3 +77,41 @@ PROPS = {
         assumes=['all token holders are among the 21 named addresses (only those appear in operations)'],
     ),
 }
+
+HUBKEYS = ['hub.stored', 'hub.state', 'hub.batch', 'hub.hist', 'hub.wait', 'hub.wd', 'tok.', 'bank hub', 'del ', 'unb ',
+           'm delegate', 'm undelegate', 'm redelegate', 'm bank hub', 'm wasm hub', 'm wasm bsei hub', 'm wasm stsei hub',
+           'm wasm user', 't']
+HUBOPS = [r'^bond ', r'^cw ', r'^hub \S+ (withdraw|checkslashing|updateglobal|receive)', r'^(advance|slash|gift|accrue)', r'^reg ']
+E_ENV = ['operating envelope of DESIGN.md section 4 (E1 magnitudes <= 1e18, E2 time, E3 delivery of matured unbondings, E4 trusted wiring, E6 no legacy storage)']
+
+
+def _hub(pid, theorems, profiles, kernels=(), extra_keys=(), assumes=()):
+    return dict(props_file='Props/%s.v' % pid, theorems=list(theorems), kernels=list(kernels),
+                scenarios=['basic.ops', 'findings.ops'], profiles=list(profiles), keys=HUBKEYS + list(extra_keys),
+                ops=HUBOPS, assumes=E_ENV + list(assumes))
+
+
+PENDING = {
+    'C01': _hub('C01', [], ['unbond', 'general'], kernels=['nwr']),
+    'C02': _hub('C02', [], ['registry', 'general'], kernels=['deleg', 'undeleg'], extra_keys=['rg.vals']),
+    'C03': _hub('C03', [], ['pricing'], kernels=['ddiv']),
+    'C04': _hub('C04', [], ['pricing', 'general']),
+    'C05': _hub('C05', [], ['pricing'], extra_keys=['hub.params']),
+    'C06': _hub('C06', [], ['pricing', 'unbond'], kernels=['nwr']),
+    'C07': _hub('C07', [], ['unbond', 'token']),
+    'C08': _hub('C08', [], ['unbond', 'general'], extra_keys=['hub.params']),
+    'C09': dict(_hub('C09', [], ['exit'], extra_keys=['env']), probe=True),
+    'C13': _hub('C13', [], ['registry'], kernels=['deleg'], extra_keys=['rg.']),
+    'C14': dict(props_file='Props/C14.v', theorems=[], kernels=['drewards'], scenarios=['basic.ops', 'findings.ops'],
+                profiles=['rewards', 'token'], keys=['rw.', 'bank reward', 'm bank reward', 'm wasm bsei reward', 'm wasm disp reward', 'tok.bsei'],
+                ops=[r'^reward ', r'^cw bsei', r'^hub \S+ updateglobal', r'^bond b', r'^inst_reward'], assumes=E_ENV),
+    'C15': dict(props_file='Props/C15.v', theorems=[], kernels=['drewards'], scenarios=['basic.ops', 'findings.ops'],
+                profiles=['rewards', 'token'], keys=['rw.', 'bank reward', 'm wasm bsei reward', 'm wasm disp reward', 'tok.bsei'],
+                ops=[r'^reward ', r'^cw bsei', r'^hub \S+ updateglobal', r'^bond b'], assumes=E_ENV),
+    'C16': dict(props_file='Props/C16.v', theorems=[], kernels=[], scenarios=['basic.ops', 'findings.ops'],
+                profiles=['token', 'general'], keys=['rw.holder', 'rw.state', 'tok.bsei', 'm wasm bsei', 'm wasm hub bsei'],
+                ops=[r'^cw bsei', r'^bond b', r'^reward \S+ (inc|dec)'], assumes=E_ENV + ['bSei instantiated without initial balances']),
+    'C19': dict(props_file='Props/C19.v', theorems=[], kernels=['swapinfo'], scenarios=['basic.ops', 'findings.ops'],
+                profiles=['rewards'], keys=HUBKEYS + ['m ', 'bank ', 'pend', 'rw.', 'dp.'],
+                ops=[r'^hub \S+ updateglobal', r'^reg \S+ remove', r'^accrue'], assumes=E_ENV + ['swap and oracle stubs of PROTOCOL.md section 4 (E7)']),
+}
